@@ -735,6 +735,118 @@ def _columns(src):
     return sorted(out)
 
 
+_VIEWISH = ("view", "reshape", "ravel", "squeeze", "swapaxes", "transpose", "T", "flat", "real", "imag", "values", "to_numpy", "__array__", "diagonal")
+_NP_ALIAS = ("asarray", "asanyarray", "ascontiguousarray", "ravel", "reshape", "squeeze", "atleast_1d", "atleast_2d", "transpose", "broadcast_to")
+_NP_INPLACE = ("put", "place", "copyto", "putmask", "fill_diagonal", "put_along_axis", "shuffle")
+_BUILTIN_PURE = ("len", "zip", "range", "enumerate", "sum", "min", "max", "sorted", "list", "tuple", "int", "float", "str", "bool", "abs", "print", "isinstance",
+                 "any", "all", "round", "repr", "type", "iter", "map", "filter", "reversed", "set", "dict", "open")
+PURE_HELPERS = ("generate_matching_statistics", "save_matching_statistics", "generate_thickness_volume", "save_thickness_volume")
+
+
+def _root(e):
+    """the name an expression is (possibly) a view of: x, x[...], x.attr, x.view()/reshape()/..., np.asarray(x) ..."""
+    while True:
+        if isinstance(e, ast.Name):
+            return e.id
+        if isinstance(e, (ast.Attribute, ast.Subscript, ast.Starred)):
+            e = e.value
+        elif isinstance(e, ast.Call) and isinstance(e.func, ast.Attribute) and e.func.attr in _VIEWISH:
+            e = e.func.value
+        elif isinstance(e, ast.Call) and isinstance(e.func, ast.Attribute) and isinstance(e.func.value, ast.Name) and e.func.value.id in ("np", "numpy") \
+                and e.func.attr in _NP_ALIAS and e.args:
+            e = e.args[0]
+        else:
+            return None
+
+
+def _writes(src, fname):
+    """purity obligation of a helper that receives the caller's arrays (the result arrays of the measurement before they are written to the
+    CSV): every statement that may modify a PARAMETER (or a local that may be a view of one) in place — subscript / attribute store,
+    augmented assignment, `del`, `out=`, a mutating method, an in-place numpy routine, or handing it on to another non-builtin function"""
+    fn = src.find(REL, fname)
+    tracked = set(_param_names(fn))
+    nodes = [n for st in fn.body for n in ast.walk(st)]
+    changed = True
+    while changed:  # locals that may alias a tracked name
+        changed = False
+        for n in nodes:
+            if isinstance(n, (ast.Assign, ast.AnnAssign)) and getattr(n, "value", None) is not None:
+                for t in (n.targets if isinstance(n, ast.Assign) else [n.target]):
+                    pairs = list(zip(t.elts, n.value.elts)) if isinstance(t, (ast.Tuple, ast.List)) and isinstance(n.value, (ast.Tuple, ast.List)) and len(t.elts) == len(n.value.elts) else [(t, n.value)]
+                    for tt, vv in pairs:
+                        if isinstance(tt, ast.Name) and tt.id not in tracked and _root(vv) in tracked:
+                            tracked.add(tt.id); changed = True
+            elif isinstance(n, ast.NamedExpr) and n.target.id not in tracked and _root(n.value) in tracked:
+                tracked.add(n.target.id); changed = True
+    one = lambda x: " ".join(ast.unparse(x).split())[:90]
+    out = []
+    for n in nodes:
+        ln = getattr(n, "lineno", 0)
+        if isinstance(n, (ast.Assign, ast.AnnAssign, ast.Delete)):
+            for t in (n.targets if isinstance(n, (ast.Assign, ast.Delete)) else [n.target]):
+                for tt in (t.elts if isinstance(t, (ast.Tuple, ast.List)) else [t]):
+                    if isinstance(tt, (ast.Subscript, ast.Attribute)) and _root(tt) in tracked:
+                        out.append(f"{fname}: `{one(n)}` stores into `{_root(tt)}` (line {ln})")
+        elif isinstance(n, ast.AugAssign) and _root(n.target) in tracked:
+            out.append(f"{fname}: `{one(n)}` modifies `{_root(n.target)}` in place (line {ln})")
+        elif isinstance(n, ast.Call):
+            f = n.func
+            for k in n.keywords:
+                if k.arg == "out" and any(_root(x) in tracked for x in ([k.value] if not isinstance(k.value, (ast.Tuple, ast.List)) else k.value.elts)):
+                    out.append(f"{fname}: `{one(n)}` writes through out= (line {ln})")
+            if isinstance(f, ast.Attribute) and (f.attr in _MUTATORS or f.attr.startswith("__i") or f.attr in ("__setitem__", "__delitem__")) and _root(f.value) in tracked:
+                out.append(f"{fname}: `{one(n)}` calls a mutating method of `{_root(f.value)}` (line {ln})")
+            if isinstance(f, ast.Attribute) and f.attr in _NP_INPLACE and n.args and _root(n.args[0]) in tracked:
+                out.append(f"{fname}: `{one(n)}` is an in-place routine on `{_root(n.args[0])}` (line {ln})")
+            if isinstance(f, ast.Attribute) and isinstance(f.value, ast.Name) and f.value.id in ("np", "numpy") and len(n.args) >= 3 and _root(n.args[-1]) in tracked \
+                    and f.attr not in ("where", "clip", "linspace", "arange", "interp", "percentile", "histogram", "full", "isclose", "allclose", "column_stack"):
+                out.append(f"{fname}: `{one(n)}` may use `{_root(n.args[-1])}` as a positional out argument (line {ln})")
+            if isinstance(f, ast.Name) and f.id not in _BUILTIN_PURE and f.id not in _helper_names(fn):
+                for x in list(n.args) + [k.value for k in n.keywords]:
+                    if _root(x) in tracked:
+                        out.append(f"{fname}: hands `{_root(x)}` on to {f.id}(...) (line {ln})")
+    return sorted(set(out))
+
+
+def _arg_anchor(rs, call, keep):
+    if any(isinstance(a, ast.Starred) for a in call.args) or any(k.arg is None for k in call.keywords):
+        raise core.AnchorMissing("a call site uses * / ** arguments")
+    pos = [rs.text(a) for a in call.args]
+    return ", ".join([f"<positional {j}>={t}" for j, t in enumerate(pos)] + [f"{k.arg}={rs.text(k.value)}" for k in call.keywords if k.arg in keep])
+
+
+def _callers(src):
+    """the other two ways into the measurement: run_full_pipeline and the command line (main / parse_arguments) — which of their own
+    parameters / options reach max_thickness, max_angle, direction, use_gpu, num_cpu_threads of measure_membrane_thickness, with which defaults"""
+    keep = ("max_thickness", "max_angle", "direction", "use_gpu", "num_cpu_threads")
+    out = []
+    pipe = copy.deepcopy(src.find(REL, "run_full_pipeline"))
+    out.append("run_full_pipeline(" + ", ".join(x for x in _signature(_Normalise().visit(copy.deepcopy(pipe))) if x.split("=")[0] in keep) + ")")
+    rs = _Resolver(pipe)
+    calls = [n for n in ast.walk(pipe) if isinstance(n, ast.Call) and isinstance(n.func, ast.Name) and n.func.id == _FUNCS["top"]]
+    if len(calls) != 1:
+        raise core.AnchorMissing(f"run_full_pipeline: exactly one call of measure_membrane_thickness expected, found {len(calls)}")
+    out.append("run_full_pipeline -> measure_membrane_thickness: " + _arg_anchor(rs, calls[0], keep))
+    main = copy.deepcopy(src.find(REL, "main"))
+    rs = _Resolver(main)
+    for callee in ("run_full_pipeline", _FUNCS["top"]):
+        calls = [n for n in ast.walk(main) if isinstance(n, ast.Call) and isinstance(n.func, ast.Name) and n.func.id == callee]
+        if len(calls) != 1:
+            raise core.AnchorMissing(f"main: exactly one call of {callee} expected, found {len(calls)}")
+        out.append(f"main -> {callee}: " + _arg_anchor(rs, calls[0], keep))
+    pa = src.find(REL, "parse_arguments")
+    opts = {}
+    for n in ast.walk(pa):
+        if isinstance(n, ast.Call) and isinstance(n.func, ast.Attribute) and n.func.attr == "add_argument" and n.args and isinstance(n.args[0], ast.Constant):
+            opts.setdefault(n.args[0].value, []).append(n)
+    for flag in ("--max_thickness", "--max_angle", "--direction", "--use_cpu", "--cpu_threads"):
+        if len(opts.get(flag, [])) != 1:
+            raise core.AnchorMissing(f"parse_arguments: exactly one add_argument({flag!r}) expected")
+        n = opts[flag][0]
+        out.append(f"option {flag}: " + ", ".join(f"{k.arg}={' '.join(ast.unparse(k.value).split())}" for k in n.keywords if k.arg != "help"))
+    return out
+
+
 def _helpers(src, fname):
     return _canon(src.find(REL, fname))._helpers
 
@@ -857,6 +969,11 @@ def translate(src):
     sigs = {k: src.anchor(f"signature:{_FUNCS[k]}", lambda k=k: _sig(src, k)) or ([], []) for k in ("cuda", "gpu2cpu", "gpu", "numba", "cpu", "cpu2cpu", "top")}
     disp = src.anchor("dispatch:measure_membrane_thickness", lambda: _dispatch(src)) or []
     cols = src.anchor("columns:measure_membrane_thickness", lambda: _columns(src)) or []
+    writes = []
+    for h in PURE_HELPERS:  # a missing anchor counts as a write (the theorem expects the empty list)
+        w = src.anchor(f"purity:{h}", lambda h=h: _writes(src, h))
+        writes += w if isinstance(w, list) else [f"{h}: not analysed"]
+    callers = src.anchor("callers:measure_membrane_thickness", lambda: _callers(src)) or []
     caps = src.anchor("max_matches_per_point", lambda: _caps(src)) or [CAP, CAP]  # missing -> the documented value (anchorsOk is false then)
     if sites["cpu"] is not None and (sites["cpu"].get("mult") is None or sites["cpu"].get("radius") is None):
         src.anchors.append(dict(name="scalars:measure_thickness_cpu", ok=False, value=None, detail="radius / multiplier not used by the admissibility test"))
@@ -892,6 +1009,12 @@ def translate(src):
     L.append(f"def dispatch : List String := {_lean_list(disp)}")
     L.append("/-- measure_membrane_thickness: the result columns -/")
     L.append(f"def columns : List String := {_lean_list(cols)}")
+    L.append("/-- the helpers that receive the caller's arrays (results of the measurement) before / around the CSV stores -/")
+    L.append(f"def pureHelpers : List String := {_lean_list(list(PURE_HELPERS))}")
+    L.append("/-- every statement of those helpers that may modify a parameter (or a view of one) in place -/")
+    L.append(f"def helperWrites : List String := {_lean_list(writes)}")
+    L.append("/-- run_full_pipeline and the command line: what reaches measure_membrane_thickness -/")
+    L.append(f"def callers : List String := {_lean_list(callers)}")
     L.append("end CryoCat.Gen.C20")
     return "\n".join(L) + "\n"
 
@@ -924,9 +1047,9 @@ RULE = ("point sets of 20..600 points (search tier: 6..40): family 'sheets' = tw
         "(exact float arithmetic: exact distance ties decided by index order, targets exactly on the search radius); voxel size "
         "0.3..3, max_thickness 0.75..1.8 x separation, max_angle 1..30 degrees, both directions; every decision kept a relative "
         "margin 1e-6 away from the ball/cone boundary and (float families) candidate distances 1e-9 apart; < 25 candidates per "
-        "source (corpus: exactly 24, exactly 25, and 40 = outside the quantifier, judged per pair only). Call options: in ~35% of the cases the geometry is built so that max_thickness_nm / "
+        "source (corpus: exactly 24, exactly 25, 40 = outside the quantifier, judged per pair only, and an end-to-end case of 30 pairs with one pair just below the maximum thickness). Call options: in ~35% of the cases the geometry is built so that max_thickness_nm / "
         "max_angle_degrees / direction ARE the documented defaults (8.0, 5.0 CPU / 3.0 GPU and entry point, '1to2') and the keyword is left out; "
-        "max_matches_per_point passed in half of the cases; logger left out (library prints, stdout captured) in ~12%, num_threads=1|2 passed in ~8%; "
+        "max_matches_per_point passed in half of the cases; logger left out (library prints, stdout captured) in ~12%, num_threads=1|2 passed in ~8% (never more than numba's pool size in this environment); "
         "lattice points with integral coordinates handed over as an int64 array in ~30% of the grid cases; the voxel size as python int / numpy float32 "
         "where that is the same number. Each case: measure_thickness_cpu; numba find_matches_parallel + "
         "process_matches_gpu2cpu; re-runs on a rigidly moved copy, a voxel-rescaled copy (maximum scaled along) and the surface-swapped "
@@ -958,6 +1081,15 @@ ASSUMPTIONS = [
     "the entry point reads the voxel size from the MRC header (float32 Angstrom / 10, kept in float32): it is judged at that voxel size (relative "
     "distance < 1.2e-7 from the case's, decisions of that variant are kept 1e-6 away from every boundary as well); pandas' CSV float parser may be 1 ulp "
     "off for long decimals (inside the 1e-6 margins; lattice coordinates are short dyadic decimals and parse exactly)",
+    "find_matches_parallel (the numba candidate kernel the quantifier names) is DEAD CODE in /repo today: nothing in cryocat calls it (measure_thickness_cpu uses the "
+    "KD-tree loop, measure_thickness_gpu the CUDA kernel). It is checked as the statement asks - called directly with the documented arguments, followed by "
+    "process_matches_gpu2cpu - but no user-facing path reaches it",
+    "run_full_pipeline and the command line (main / parse_arguments) are ANCHORED ONLY (Props/C20.callers_documented: defaults and which of their parameters reach "
+    "max_thickness / max_angle / direction / use_gpu / num_cpu_threads of measure_membrane_thickness); they are never executed here (they need a full segmentation and "
+    "run marching cubes + normal refinement first). The helpers that see the result arrays around the CSV stores are held to a SYNTACTIC purity obligation "
+    "(Props/C20.helpers_pure) and observed end to end only through the entry point's CPU branch (and its GPU branch under the simulator)",
+    "num_threads / num_cpu_threads are passed as min(generated value, numba.config.NUMBA_NUM_THREADS): numba refuses more threads than its pool (NUMBA_NUM_THREADS or "
+    "the number of cores) with a ValueError, which is numba's documented precondition, not a clause of the statement",
     "the 25-candidate cap: the kernels keep the first 25 admissible targets in scan order (modelled: candsCapped; capped = uncapped is proved for <= 25 "
     "per source), the CPU path the first 25 in KD-tree order (not modelled). With more than 25 admissible targets for a source the input is outside the "
     "quantifier: per-pair clauses and the kernels' buffers are still judged, the greedy clause, the invariances and the CPU-vs-model comparison are not "
@@ -1509,9 +1641,25 @@ def _voxel_arg(voxel, how):
     return voxel
 
 
+def _threads(t):
+    """a thread count THIS environment admits: numba.set_num_threads refuses more than its pool size (NUMBA_NUM_THREADS, by default the
+    number of cores) with a ValueError — a documented precondition of numba, not of the statement: with NUMBA_NUM_THREADS=1 or on a
+    1-core machine the generated `threads=2` is passed as 1"""
+    if t is None:
+        return None
+    import numba
+    return max(1, min(int(t), int(numba.config.NUMBA_NUM_THREADS)))
+
+
+def _restore_threads():
+    import numba
+    numba.set_num_threads(int(numba.config.NUMBA_NUM_THREADS))
+
+
 def _cpu(memthick, P, N, m1, m2, voxel, vals, omit=(), nolog=False, threads=None):
     """one call of measure_thickness_cpu on caller-owned arrays; the arrays are compared before / after (G2)"""
     kw, left = _kwargs("cpu", vals, omit)
+    threads = _threads(threads)
     if threads is not None:
         kw["num_threads"] = threads
     before = _snap(P, N, m1, m2)
@@ -1519,8 +1667,7 @@ def _cpu(memthick, P, N, m1, m2, voxel, vals, omit=(), nolog=False, threads=None
         ret, printed = _quiet_call(memthick.measure_thickness_cpu, nolog, P, N, m1, m2, voxel, **kw)
     finally:
         if threads is not None:
-            import numba
-            numba.set_num_threads(int(os.environ.get("NUMBA_NUM_THREADS", "2")))
+            _restore_threads()
     o = _pairs(ret)
     o["inputs_unchanged"] = _same(before, P, N, m1, m2)
     o["omitted"] = left + (["logger"] if nolog else []) + ([] if threads is not None else ["num_threads"])
@@ -1567,7 +1714,7 @@ def _top(memthick, case, pts, nrm, use_gpu):
         else:
             left.append("use_gpu")
         if T.get("threads") is not None:
-            kw["num_cpu_threads"] = T["threads"]
+            kw["num_cpu_threads"] = _threads(T["threads"])
         out_dir = os.path.join(tmp, "out")
         err = io.StringIO()
         try:
@@ -1586,8 +1733,7 @@ def _top(memthick, case, pts, nrm, use_gpu):
                     pass
             lg.handlers = []
             if T.get("threads") is not None:
-                import numba
-                numba.set_num_threads(int(os.environ.get("NUMBA_NUM_THREADS", "2")))
+                _restore_threads()
         o = dict(veff=veff, omitted=left, int_columns=int(sum(as_int)), n_in=len(P))
         if not (isinstance(ret, tuple) and len(ret) == 2 and all(isinstance(x, str) for x in ret)):
             o["shape_error"] = f"returned {ret!r:.200}"
@@ -2366,18 +2512,20 @@ LEVEL_TEXT = ("Lean 4 theorems about an executable model of measure_thickness_cp
               "process_matches_gpu2cpu), for every point set, labelling, voxel size, maximum thickness, cone half-angle and direction, over any linearly ordered "
               "field: model_spec (every pair admissible; one-to-one; greedy by increasing distance), model_lex (Python tuple tie-break), check_iff = check_sound + check_complete "
               "(the verified checker run on every real output accepts exactly the outputs that satisfy the statement), no_leftover, no_closer, at_most_one, within_range_and_forward, "
-              "in_cone / cone_iff (the test with multiplier tan^2 is exactly the cone of half-angle max_angle for unit normals), measure_move (rigid motion), measure_rescale (change of unit: "
+              "in_cone / cone_iff (the test with multiplier tan^2 is exactly the cone of half-angle max_angle for unit normals), in_cone_approx (normals with n.n >= 1 - eps), measure_move (rigid motion), measure_rescale (change of unit: "
               "voxel size with the maximum rescaled along), cands_at_larger_voxel_iff + thickness_at_other_voxel (what holds at a fixed physical maximum), direction_swap, "
               "capped_eq_uncapped / fewer_than_25_candidates (the 25-slot buffer changes nothing inside the quantifier), capped_pairs_sound + cap_counterexample (above the cap: per-pair clauses hold, "
               "greedy fails), measure_order_independent (KD-tree order is irrelevant), cone_counterexample (regression witness of D17). Tied to the source by translator theorems whose "
               "expected values are literals compared by the Lean kernel: the three admissibility sites CPU/numba/CUDA are syntactically identical after inlining and evaluate to the model's "
               "d2/proj/lat2 over every commutative ring; the recorded distance is the square root of that d2; guard chain and store block of each site; whole canonical bodies "
               "(alpha-renamed statement lists, annotations / docstrings / logging removed, constant-left comparisons mirrored) of the two kernels, measure_thickness_cpu/gpu, the two assignment loops, "
-              "the entry point measure_membrane_thickness and read_segmentation; the logging helpers (fall back to print without a logger); the entry point's dispatch with every argument "
+              "the entry point measure_membrane_thickness and read_segmentation; the logging helpers (fall back to print without a logger); helpers_pure (the statistics / volume helpers around the CSV stores modify no parameter in place); callers_documented (run_full_pipeline and the command line: anchored only); the entry point's dispatch with every argument "
               "resolved to CSV columns / MRC header / its own parameters; signature defaults and decorators of all seven functions; multiplier tan(radians(deg))**2 (evaluated: multiplier_evaluates) and radius on both paths. "
               "Differential run of the real CPU path, the real numba kernel, the entry point end to end and (under numba's CUDA simulator) the real GPU path against the model at Float")
-LEVEL_NOTE = ("proved: all clauses for the model and for every implementation output accepted by the verified checker (sound and complete), in exact arithmetic with an abstract square root and an "
-              "abstract angle (cos, tan with cos^2(1+tan^2)=1). Validated only: floating point, libm tan/sqrt, the KD-tree ball query, numba scheduling, float32 rounding of the "
+LEVEL_NOTE = ("proved: all clauses for the model and - as far as they concern the PAIRING - for every implementation output accepted by the verified checker (sound and complete), in exact arithmetic with an abstract square root and an "
+              "abstract angle (cos, tan with cos^2(1+tan^2)=1). Spec / check_iff decide the pairing only (admissible, one-to-one, greedy): 'a pair's thickness is the distance times the voxel size' is proved for the MODEL "
+              "(model_distance) and, on real outputs, evaluated by the harness in Python (independent float64 evaluation, tolerance 1e-6) and compared with the model's value (correspondence) - not by a Lean checker. "
+              "in_cone / in_cone_real ask for n.n = 1 exactly (vacuous for noisy float normals); in_cone_approx / in_cone_real_approx are the versions for n.n >= 1 - eps. Validated only: floating point, libm tan/sqrt, the KD-tree ball query, numba scheduling, float32 rounding of the "
               "thickness (tolerance 1e-6) and of the GPU path's coordinates; the GPU path is executed by the CUDA simulator only (never on a device) and its disagreements are reported as correspondence; "
               "'scales with the voxel size' is proved as measure_rescale (a change of unit: maximum rescaled along) - at a fixed max_thickness_nm the candidate set shrinks with a larger voxel size "
               "(cands_at_larger_voxel_iff) and only the thickness of a pair kept by both runs scales (thickness_at_other_voxel); the real code is run at a second "
